@@ -1,7 +1,7 @@
 (* Proofs/DagTrigLoop.v — C02, graph level, part 4: the trigger invariant along the run loop and the
    theorems dag_runs_iff_triggered / dag_routed_when_run / dag_skip_propagates about every state the loop of
    runner.run reaches (batch and eager mode, every schedule, every behaviour of the node bodies). *)
-From Eino Require Import Base.Util Model.Graph Proofs.DagChan Proofs.DagInv Proofs.DagLoop Proofs.DagTrig.
+From Eino Require Import Base.Util Model.Graph Proofs.DagChan Proofs.DagInv Proofs.DagLoop Proofs.DagTrig Proofs.DagVals Proofs.DagSkip.
 From Coq Require Import Lia Permutation.
 Open Scope N_scope.
 
@@ -12,6 +12,7 @@ Section DagTrigLoop.
   Variable g : graph.
   Hypothesis Hdag : g_mode g = Dag.
   Hypothesis Hnk : NoDup (map n_key (g_nodes g)).
+  Hypothesis Hcd : api_built g.
 
   Notation chan := (chan V).
   Notation chans := (chans V).
@@ -19,6 +20,10 @@ Section DagTrigLoop.
   Notation skipped := (skipped V).
   Notation ET := (ET V ops g).
   Notation GW := (GW V ops g).
+  Notation EV := (EV V ops g).
+  Notation input_spec := (input_spec V ops g).
+  Notation ES := (ES V ops g).
+  Notation EK := (EK V g).
 
   Definition NR (cs : chans) (G : list key) : Prop :=
     forall t c, alookup t cs = Some c -> ~ In t G -> dag_ready V c = false.
@@ -79,7 +84,11 @@ Section DagTrigLoop.
     (* the loop invariant with the resolution record Rv *)
     Definition LT (ls : loopstate V St) (Rv : list (key * V)) : Prop :=
       exists X G, LInvR ls (akeys Rv) X G
-                  /\ ET (ls_chans V St ls) Rv [] G [] /\ GW Rv [] G /\ NR (ls_chans V St ls) G.
+                  /\ ET (ls_chans V St ls) Rv [] G [] /\ GW Rv [] G /\ NR (ls_chans V St ls) G
+                  /\ EV (ls_chans V St ls) Rv G
+                  /\ (forall t w, alookup t (ls_next V St ls) = Some w -> input_spec Rv t w)
+                  /\ ES (ls_chans V St ls) Rv
+                  /\ EK (ls_chans V St ls) [].
 
     Lemma LInvR_equiv_R ls R R' X G : (forall x, In x R <-> In x R') -> LInvR ls R X G -> LInvR ls R' X G.
     Proof.
@@ -99,6 +108,37 @@ Section DagTrigLoop.
     | reach_step ls Rv ls' :
         reach x s0 ls Rv -> step ls = Continue ls' -> reach x s0 ls' (Rv ++ step_outputs ls).
 
+    (* one iteration: the state after calc_next (whether or not END became ready) *)
+    Lemma LT_step ls Rv results sublog s' completed running' cs' ready :
+      LT ls Rv ->
+      submit V St ops exec sub p g (ls_next V St ls) (ls_st V St ls) = (results, sublog, s') ->
+      wait_tasks V sched g (ls_step V St ls) (ls_running V St ls ++ results) = (completed, running') ->
+      calc_next V ops g (ls_chans V St ls) (task_outputs V completed) = Ok (cs', ready) ->
+      (alookup kEND ready = None \/ exists q, gpred g kEND q) ->
+      LT {| ls_step := S (ls_step V St ls); ls_chans := cs'; ls_next := ready; ls_running := running';
+            ls_st := s'; ls_log := ls_log V St ls ++ next_entry V St p ls ++ sublog |}
+         (Rv ++ task_outputs V completed).
+    Proof.
+      intros (X & G & HL & HE & HG & HNR & HV & _ & HS & HK) Es Ew Ecn Hor.
+      destruct (step_continue_R V St ops g Hdag exec sub sched p Hsub ls (akeys Rv) X G _ _ _ _ _ _ _ HL Es Ew Ecn Hor)
+        as (HL' & HndCo & Hpre).
+      pose proof HL as (HI & Ho & Hnd & _).
+      destruct (calc_next_ET V ops g Hdag Hnk Hcd _ (akeys Rv) Rv G _ cs' ready HI Ho Hnd HE HG HndCo Hpre Ecn) as (HE1 & HG1 & HNR1).
+      destruct (calc_next_EV V ops g Hdag Hnk _ (akeys Rv) Rv G _ cs' ready HI Ho Hnd HE HG HV HndCo Hpre Ecn) as (HV1 & Hin1).
+      exists (X ++ akeys (ls_next V St ls)), (G ++ akeys ready).
+      assert (HS1 : ES cs' (Rv ++ task_outputs V completed)).
+      { eapply (calc_next_ES V ops g Hdag _ (akeys Rv) G (Rv ++ task_outputs V completed) (task_outputs V completed)); [exact HI| | | |exact Ecn].
+        - eapply ES_mono_L; [|exact HS]. intros z Hz. apply in_app_iff. now left.
+        - intros z Hz. apply in_app_iff. now right.
+        - intros k Hk. destruct (Hpre k Hk) as (A & B & _). auto. }
+      assert (HK1 : EK cs' []).
+      { eapply (calc_next_EK V ops g Hdag Hnk _ (akeys Rv) G (task_outputs V completed)); [exact HI|exact HK| |exact Ecn].
+        intros k Hk. destruct (Hpre k Hk) as (A & B & _). auto. }
+      split; [|split; [exact HE1|split; [exact HG1|split; [|split; [exact HV1|split; [exact Hin1|split; [exact HS1|exact HK1]]]]]]].
+      + eapply LInvR_equiv_R; [|exact HL']. intros z. unfold akeys. rewrite map_app, !in_app_iff. tauto.
+      + intros t c E HnG. apply (HNR1 t c E). intros Hin. apply HnG. apply in_app_iff. now right.
+    Qed.
+
     Lemma reach_LT x s0 ls Rv : reach x s0 ls Rv -> LT ls Rv.
     Proof.
       induction 1 as [cs0 cs1 ready Hi Hc Hend|ls Rv ls' Hr IH Hstep].
@@ -109,22 +149,23 @@ Section DagTrigLoop.
         { intros k [<-|[]]. split; [now left|]. split; [|intros []]. intros t [<-|[]] Hne. congruence. }
         assert (Hnd : NoDup [kSTART]) by (constructor; [intros []|constructor]).
         assert (Hnd1 : NoDup (akeys [(kSTART, x)])) by (constructor; [intros []|constructor]).
-        destruct (calc_next_ET V ops g Hdag Hnk cs0 [kSTART] [] [kSTART] [(kSTART, x)] cs1 ready
+        destruct (calc_next_ET V ops g Hdag Hnk Hcd cs0 [kSTART] [] [kSTART] [(kSTART, x)] cs1 ready
                     HI0 Ho0 Hnd HE0 GW_init Hnd1 Hpre Hc) as (HE1 & HG1 & HNR).
+        destruct (calc_next_EV V ops g Hdag Hnk cs0 [kSTART] [] [kSTART] [(kSTART, x)] cs1 ready
+                    HI0 Ho0 Hnd HE0 GW_init (init_chans_EV V ops g Hdag cs0 Hi) Hnd1 Hpre Hc) as (HV1 & Hin1).
         exists [], ([kSTART] ++ akeys ready). split; [exact HL|]. split; [exact HE1|]. split; [exact HG1|].
+        assert (HS1 : ES cs1 [(kSTART, x)]).
+        { eapply (calc_next_ES V ops g Hdag cs0 [kSTART] [kSTART] [(kSTART, x)] [(kSTART, x)]); [exact HI0| |apply incl_refl| |exact Hc].
+          - eapply ES_mono_L; [|exact (init_chans_ES V ops g Hdag cs0 Hi)]. intros z [].
+          - intros k Hk. destruct (Hpre k Hk) as (A & B & _). auto. }
+        assert (HK1 : EK cs1 []).
+        { eapply (calc_next_EK V ops g Hdag Hnk cs0 [kSTART] [kSTART] [(kSTART, x)]); [exact HI0|exact (init_chans_EK V g Hdag Hnk cs0 Hi)| |exact Hc].
+          intros k Hk. destruct (Hpre k Hk) as (A & B & _). auto. }
+        split; [|split; [exact HV1|split; [exact Hin1|split; [exact HS1|exact HK1]]]].
         intros t c E HnG. apply (HNR t c E). intros Hin. apply HnG. apply in_app_iff. now right.
-      - destruct IH as (X & G & HL & HE & HG & HNR).
-        destruct (step_continue_unfold V St ops g Hdag exec sub sched p ls ls' Hstep)
+      - destruct (step_continue_unfold V St ops g Hdag exec sub sched p ls ls' Hstep)
           as (results & sublog & s' & completed & running' & cs' & ready & Es & Ew & Ecn & Eend & Eso & ->).
-        destruct (step_continue_R V St ops g Hdag exec sub sched p Hsub ls (akeys Rv) X G _ _ _ _ _ _ _ HL Es Ew Ecn Eend)
-          as (HL' & HndCo & Hpre).
-        rewrite Eso.
-        pose proof HL as (HI & Ho & Hnd & _).
-        destruct (calc_next_ET V ops g Hdag Hnk _ (akeys Rv) Rv G _ cs' ready HI Ho Hnd HE HG HndCo Hpre Ecn) as (HE1 & HG1 & HNR1).
-        exists (X ++ akeys (ls_next V St ls)), (G ++ akeys ready).
-        split; [|split; [exact HE1|split; [exact HG1|]]].
-        + eapply LInvR_equiv_R; [|exact HL']. intros z. unfold akeys. rewrite map_app, !in_app_iff. tauto.
-        + intros t c E HnG. apply (HNR1 t c E). intros Hin. apply HnG. apply in_app_iff. now right.
+        rewrite Eso. eapply LT_step; try eassumption. now left.
     Qed.
 
     (* [iterate] only ever goes through reachable states *)
@@ -175,11 +216,11 @@ Section DagTrigLoop.
 
     (* A node has been executed or is scheduled for the coming step EXACTLY WHEN it is triggered: its channel
        is not skipped and every control and data predecessor has been resolved or is skipped. *)
-    Theorem runs_iff_triggered x s0 ls Rv t :
-      reach x s0 ls Rv ->
+    Lemma runs_iff_triggered_LT ls Rv t :
+      LT ls Rv ->
       (executed ls t \/ scheduled ls t) <-> triggered ls Rv t.
     Proof.
-      intros Hr. destruct (reach_LT x s0 ls Rv Hr) as (X & G & HL & HE & HG & HNR).
+      intros Hr. destruct Hr as (X & G & HL & HE & HG & HNR & HV & Hins & HS & HK).
       pose proof HL as (HI & Ho & Hnd & Hperm & _ & _ & _ & Hlog).
       pose proof (LT_G_iff ls Rv X G t HL Hlog) as HGiff.
       assert (HstartG : In kSTART G) by (apply (Permutation_in _ (Permutation_sym Hperm)); now left).
@@ -221,13 +262,18 @@ Section DagTrigLoop.
           rewrite (HNR t c E HtnG) in Hrdy. discriminate.
     Qed.
 
+    Theorem runs_iff_triggered x s0 ls Rv t :
+      reach x s0 ls Rv ->
+      (executed ls t \/ scheduled ls t) <-> triggered ls Rv t.
+    Proof. intros Hr. pose proof (reach_LT x s0 ls Rv Hr) as HLT. revert HLT. apply runs_iff_triggered_LT. Qed.
+
     (* ... and then at least one control predecessor actually routed control to it (direct control edge or
        selected by one of its branches) *)
-    Theorem routed_when_run x s0 ls Rv t :
-      reach x s0 ls Rv -> (executed ls t \/ scheduled ls t) -> cpreds g t <> [] ->
+    Lemma routed_when_run_LT ls Rv t :
+      LT ls Rv -> (executed ls t \/ scheduled ls t) -> cpreds g t <> [] ->
       exists q, In q (cpreds g t) /\ routed_c Rv q t.
     Proof.
-      intros Hr H Hcp. destruct (reach_LT x s0 ls Rv Hr) as (X & G & HL & HE & HG & HNR).
+      intros Hr H Hcp. destruct Hr as (X & G & HL & HE & HG & HNR & HV & Hins & HS & HK).
       pose proof HL as (HI & Ho & Hnd & Hperm & _ & _ & _ & Hlog).
       pose proof (LT_G_iff ls Rv X G t HL Hlog) as HGiff.
       assert (HtG : In t G) by (apply HGiff; tauto).
@@ -240,15 +286,20 @@ Section DagTrigLoop.
       exists q. split; [assumption|]. exists out, n. auto.
     Qed.
 
+    Theorem routed_when_run x s0 ls Rv t :
+      reach x s0 ls Rv -> (executed ls t \/ scheduled ls t) -> cpreds g t <> [] ->
+      exists q, In q (cpreds g t) /\ routed_c Rv q t.
+    Proof. intros Hr. pose proof (reach_LT x s0 ls Rv Hr) as HLT. revert HLT. apply routed_when_run_LT. Qed.
+
     (* Otherwise it is skipped: a node with control predecessors, all of them finished or skipped and none
        of them having routed control to it, is skipped. *)
-    Theorem skipped_when_none_routed x s0 ls Rv t c :
-      reach x s0 ls Rv -> alookup t (ls_chans V St ls) = Some c -> cpreds g t <> [] ->
+    Lemma skipped_when_none_routed_LT ls Rv t c :
+      LT ls Rv -> alookup t (ls_chans V St ls) = Some c -> cpreds g t <> [] ->
       (forall q, In q (cpreds g t) -> resolved Rv q \/ skipped (ls_chans V St ls) q) ->
       (forall q, In q (cpreds g t) -> ~ routed_c Rv q t) ->
       c_skipped V c = true.
     Proof.
-      intros Hr E Hcp Hall Hnone. destruct (reach_LT x s0 ls Rv Hr) as (X & G & HL & HE & HG & HNR).
+      intros Hr E Hcp Hall Hnone. destruct Hr as (X & G & HL & HE & HG & HNR & HV & Hins & HS & HK).
       pose proof HL as (HI & Ho & Hnd & Hperm & _ & _ & _ & Hlog).
       destruct (c_skipped V c) eqn:S; [reflexivity|]. exfalso.
       assert (Hne : t <> kSTART) by (intros ->; rewrite (start_no_chan _ _ _ _ _ _ HI) in E; discriminate).
@@ -271,37 +322,234 @@ Section DagTrigLoop.
         + rewrite (e_c3 _ _ _ _ _ _ _ _ HE t c q HLv Hq Hs (fun F => F)) in El. congruence.
     Qed.
 
-    (* the skip propagates: a node all of whose control predecessors are skipped is skipped *)
-    Theorem skip_propagates x s0 ls Rv t c :
+    Theorem skipped_when_none_routed x s0 ls Rv t c :
       reach x s0 ls Rv -> alookup t (ls_chans V St ls) = Some c -> cpreds g t <> [] ->
+      (forall q, In q (cpreds g t) -> resolved Rv q \/ skipped (ls_chans V St ls) q) ->
+      (forall q, In q (cpreds g t) -> ~ routed_c Rv q t) ->
+      c_skipped V c = true.
+    Proof. intros Hr. pose proof (reach_LT x s0 ls Rv Hr) as HLT. revert HLT. apply skipped_when_none_routed_LT. Qed.
+
+    (* the skip propagates: a node all of whose control predecessors are skipped is skipped *)
+    Lemma skip_propagates_LT ls Rv t c :
+      LT ls Rv -> alookup t (ls_chans V St ls) = Some c -> cpreds g t <> [] ->
       (forall q, In q (cpreds g t) -> skipped (ls_chans V St ls) q) ->
       c_skipped V c = true.
     Proof.
-      intros Hr E Hcp Hall. eapply skipped_when_none_routed; try eassumption.
+      intros Hr E Hcp Hall. eapply skipped_when_none_routed_LT; try eassumption.
       - intros q Hq. right. now apply Hall.
       - intros q Hq (out & n & Hin & _).
-        destruct (reach_LT x s0 ls Rv Hr) as (X & G & HL & HE & HG & HNR). pose proof HL as (HI & _).
+        destruct Hr as (X & G & HL & HE & HG & HNR & HV & Hins & HS & HK). pose proof HL as (HI & _).
         eapply skipped_not_resolved; [exact HI|exact HG|exact (Hall q Hq)|].
         unfold akeys. now apply (in_map fst) in Hin.
     Qed.
 
+    Theorem skip_propagates x s0 ls Rv t c :
+      reach x s0 ls Rv -> alookup t (ls_chans V St ls) = Some c -> cpreds g t <> [] ->
+      (forall q, In q (cpreds g t) -> skipped (ls_chans V St ls) q) ->
+      c_skipped V c = true.
+    Proof. intros Hr. pose proof (reach_LT x s0 ls Rv Hr) as HLT. revert HLT. apply skip_propagates_LT. Qed.
+
     (* a skipped node has not run and is not scheduled *)
-    Theorem skipped_never_runs x s0 ls Rv t :
-      reach x s0 ls Rv -> skipped (ls_chans V St ls) t -> ~ (executed ls t \/ scheduled ls t).
+    Lemma skipped_never_runs_LT ls Rv t :
+      LT ls Rv -> skipped (ls_chans V St ls) t -> ~ (executed ls t \/ scheduled ls t).
     Proof.
-      intros Hr Hs H. destruct (reach_LT x s0 ls Rv Hr) as (X & G & HL & HE & HG & HNR).
+      intros Hr Hs H. destruct Hr as (X & G & HL & HE & HG & HNR & HV & Hins & HS & HK).
       pose proof HL as (HI & Ho & Hnd & Hperm & _ & _ & _ & Hlog).
       apply (gotten_not_skipped _ _ _ _ _ _ t HI); [|assumption].
       apply (LT_G_iff ls Rv X G t HL Hlog). tauto.
     Qed.
 
+    Theorem skipped_never_runs x s0 ls Rv t :
+      reach x s0 ls Rv -> skipped (ls_chans V St ls) t -> ~ (executed ls t \/ scheduled ls t).
+    Proof. intros Hr. pose proof (reach_LT x s0 ls Rv Hr) as HLT. revert HLT. apply skipped_never_runs_LT. Qed.
+
     (* a node without any predecessor (no edge or branch leads to it) is skipped from the start: F-C02 *)
+    Lemma orphan_skipped_LT ls Rv t c :
+      LT ls Rv -> alookup t (ls_chans V St ls) = Some c -> t <> kEND ->
+      cpreds g t = [] -> dpreds g t = [] -> c_skipped V c = true.
+    Proof.
+      intros Hr E Hne Hc Hd. destruct Hr as (X & G & HL & _).
+      destruct HL as (_ & Ho & _). apply (Ho t c Hne E). intros q [Hq|Hq]; [rewrite Hc in Hq|rewrite Hd in Hq]; destruct Hq.
+    Qed.
+
     Theorem orphan_skipped x s0 ls Rv t c :
       reach x s0 ls Rv -> alookup t (ls_chans V St ls) = Some c -> t <> kEND ->
       cpreds g t = [] -> dpreds g t = [] -> c_skipped V c = true.
+    Proof. intros Hr. pose proof (reach_LT x s0 ls Rv Hr) as HLT. revert HLT. apply orphan_skipped_LT. Qed.
+
+    (* Soundness of skips: a skipped node with control predecessors was routed to by none of them (each is
+       skipped itself, or was resolved with an output that leaves the node unselected and has no direct
+       control edge to it) *)
+    Lemma skipped_none_routed_LT ls Rv t c :
+      LT ls Rv -> alookup t (ls_chans V St ls) = Some c -> c_skipped V c = true -> cpreds g t <> [] ->
+      forall q, In q (cpreds g t) -> ~ routed_c Rv q t.
     Proof.
-      intros Hr E Hne Hc Hd. destruct (reach_LT x s0 ls Rv Hr) as (X & G & HL & _).
-      destruct HL as (_ & Ho & _). apply (Ho t c Hne E). intros q [Hq|Hq]; [rewrite Hc in Hq|rewrite Hd in Hq]; destruct Hq.
+      intros Hr E S Hcp q Hq (out' & n' & Hin' & Hf' & Hrt).
+      destruct Hr as (X & G & HL & HE & HG & HNR & HV & Hins & HS & HK).
+      pose proof HL as (HI & _).
+      pose proof (inv_wf _ _ _ _ _ _ HI) as (_ & _ & Hwf). destruct (Hwf t c E) as ((Hcc & _) & Hcw & _).
+      pose proof (inv_skc _ _ _ _ _ _ HI t c E S) as Hall. rewrite (all_skipped_iff _ Hcc) in Hall.
+      assert (Hent : ctrl_st V c q = Some Skipped).
+      { apply Hcw in Hq. destruct (ctrl_st V c q) as [d|] eqn:Ed; [|congruence]. f_equal. eapply Hall. exact Ed. }
+      destruct (s_c _ _ _ _ _ HS t c q E Hent) as [Hs|(out & n & Hin & Hf & Hskl)].
+      - eapply skipped_not_resolved; [exact HI|exact HG|exact Hs|]. unfold akeys. now apply (in_map fst) in Hin'.
+      - assert (out' = out) by (eapply GW_unique; [exact HG| |]; apply in_app_iff; left; eassumption).
+        subst out'. rewrite Hf in Hf'. injection Hf' as <-.
+        destruct (gw_node _ _ _ _ _ _ HG q out (proj2 (in_app_iff _ _ _) (or_introl Hin))) as (n2 & sel & sk & Hf2 & Hev).
+        rewrite Hf in Hf2. injection Hf2 as <-.
+        destruct (sel_skl_of V ops n out sel sk Hev) as [Es Ek]. rewrite Ek in Hskl.
+        destruct Hrt as [Hc|Hs].
+        + eapply eval_branches_skipped_csucc; eassumption.
+        + rewrite Es in Hs. destruct (eval_branches_skipped V ops n out sel sk t Hev Hskl) as [_ Hns]. contradiction.
+    Qed.
+
+    Theorem skipped_none_routed x s0 ls Rv t c :
+      reach x s0 ls Rv -> alookup t (ls_chans V St ls) = Some c -> c_skipped V c = true -> cpreds g t <> [] ->
+      forall q, In q (cpreds g t) -> ~ routed_c Rv q t.
+    Proof. intros Hr. pose proof (reach_LT x s0 ls Rv Hr) as HLT. revert HLT. apply skipped_none_routed_LT. Qed.
+
+    (* a skipped node without control predecessors has no predecessor at all or a skipped data predecessor *)
+    Lemma skipped_data_only_LT ls Rv t c :
+      LT ls Rv -> alookup t (ls_chans V St ls) = Some c -> c_skipped V c = true -> cpreds g t = [] ->
+      dpreds g t = [] \/ exists q, In q (dpreds g t) /\ skipped (ls_chans V St ls) q.
+    Proof.
+      intros Hr E S Hcp. destruct Hr as (X & G & HL & HE & HG & HNR & HV & Hins & HS & HK).
+      exact (s_k _ _ _ _ _ HS t c E S Hcp).
+    Qed.
+
+    Theorem skipped_data_only x s0 ls Rv t c :
+      reach x s0 ls Rv -> alookup t (ls_chans V St ls) = Some c -> c_skipped V c = true -> cpreds g t = [] ->
+      dpreds g t = [] \/ exists q, In q (dpreds g t) /\ skipped (ls_chans V St ls) q.
+    Proof. intros Hr. pose proof (reach_LT x s0 ls Rv Hr) as HLT. revert HLT. apply skipped_data_only_LT. Qed.
+
+    (* ... and conversely a skipped data predecessor skips a node that has no control predecessor *)
+    Lemma skip_propagates_data_LT ls Rv t c q :
+      LT ls Rv -> alookup t (ls_chans V St ls) = Some c -> cpreds g t = [] -> In q (dpreds g t) ->
+      skipped (ls_chans V St ls) q -> c_skipped V c = true.
+    Proof.
+      intros Hr E Hc Hq Hs. destruct Hr as (X & G & HL & HE & HG & HNR & HV & Hins & HS & HK).
+      exact (HK t c q E Hc Hq Hs (fun F => F)).
+    Qed.
+
+    Theorem skip_propagates_data x s0 ls Rv t c q :
+      reach x s0 ls Rv -> alookup t (ls_chans V St ls) = Some c -> cpreds g t = [] -> In q (dpreds g t) ->
+      skipped (ls_chans V St ls) q -> c_skipped V c = true.
+    Proof. intros Hr. pose proof (reach_LT x s0 ls Rv Hr) as HLT. revert HLT. apply skip_propagates_data_LT. Qed.
+
+    (* once all control predecessors are finished or skipped: skipped <=> none of them routed to the node *)
+    Lemma skipped_iff_none_routed_LT ls Rv t c :
+      LT ls Rv -> alookup t (ls_chans V St ls) = Some c -> cpreds g t <> [] ->
+      (forall q, In q (cpreds g t) -> resolved Rv q \/ skipped (ls_chans V St ls) q) ->
+      (c_skipped V c = true <-> forall q, In q (cpreds g t) -> ~ routed_c Rv q t).
+    Proof.
+      intros Hr E Hcp Hall. split.
+      - intros S. eapply skipped_none_routed_LT; eassumption.
+      - intros Hnone. eapply skipped_when_none_routed_LT; eassumption.
+    Qed.
+
+    Theorem skipped_iff_none_routed x s0 ls Rv t c :
+      reach x s0 ls Rv -> alookup t (ls_chans V St ls) = Some c -> cpreds g t <> [] ->
+      (forall q, In q (cpreds g t) -> resolved Rv q \/ skipped (ls_chans V St ls) q) ->
+      (c_skipped V c = true <-> forall q, In q (cpreds g t) -> ~ routed_c Rv q t).
+    Proof. intros Hr. pose proof (reach_LT x s0 ls Rv Hr) as HLT. revert HLT. apply skipped_iff_none_routed_LT. Qed.
+
+    (* ================= the input of a node, and the result ================= *)
+    Definition own_events (l : log V) : list (path * V) := List.concat (log_steps_at V p l).
+
+    Lemma own_events_app l1 l2 : own_events (l1 ++ l2) = own_events l1 ++ own_events l2.
+    Proof. unfold own_events, log_steps_at. now rewrite filter_app, map_app, concat_app. Qed.
+
+    Lemma own_events_foreign l : Forall (fun e : logentry V => fst e <> p) l -> own_events l = [].
+    Proof.
+      unfold own_events, log_steps_at. induction 1 as [|e l He _ IH]; simpl; [reflexivity|].
+      match goal with |- context [list_eq_dec ?a ?b ?c] => destruct (list_eq_dec a b c) end; [contradiction|exact IH].
+    Qed.
+
+    Lemma own_events_next ls :
+      own_events (next_entry V St p ls) = map (fun kv => (p ++ [fst kv], snd kv)) (ls_next V St ls).
+    Proof.
+      unfold next_entry. destruct (ls_next V St ls) as [|a l] eqn:En; [reflexivity|].
+      unfold own_events, log_steps_at, step_entry. simpl.
+      match goal with |- context [list_eq_dec ?a ?b ?c] => destruct (list_eq_dec a b c) end; [|contradiction].
+      simpl. now rewrite app_nil_r.
+    Qed.
+
+    (* the tasks the next iteration submits: each gets the merge of the outputs of exactly those data
+       predecessors that were resolved and routed data to it (the zero value when there are none), passed
+       through the field-mapping converter when the node has mapped inputs *)
+    Lemma scheduled_input_LT ls Rv t w :
+      LT ls Rv -> alookup t (ls_next V St ls) = Some w -> input_spec Rv t w.
+    Proof.
+      intros Hr. destruct Hr as (X & G & _ & _ & _ & _ & _ & Hins & _). apply Hins.
+    Qed.
+
+    Theorem scheduled_input x s0 ls Rv t w :
+      reach x s0 ls Rv -> alookup t (ls_next V St ls) = Some w -> input_spec Rv t w.
+    Proof. intros Hr. pose proof (reach_LT x s0 ls Rv Hr) as HLT. revert HLT. apply scheduled_input_LT. Qed.
+
+    Lemma ls_next_sorted x s0 ls Rv : reach x s0 ls Rv -> NoDup (akeys (ls_next V St ls)).
+    Proof.
+      intros Hr. destruct (reach_LT x s0 ls Rv Hr) as (X & G & HL & _).
+      destruct HL as (_ & _ & _ & _ & Hnd & _). now apply NoDup_app_inv in Hnd.
+    Qed.
+
+    Lemma nodup_in_alookup {A} (l : list (key * A)) k a : NoDup (akeys l) -> In (k, a) l -> alookup k l = Some a.
+    Proof.
+      unfold akeys. induction l as [|[k0 a0] l IH]; simpl; [intros _ []|].
+      intros Hnd [[= -> ->]|Hin]; [now rewrite N.eqb_refl|].
+      inversion Hnd as [|? ? Hn Hnd']; subst.
+      destruct (N.eqb k k0) eqn:E; [|now apply IH].
+      apply N.eqb_eq in E. subst. exfalso. apply Hn. now apply (in_map fst) in Hin.
+    Qed.
+
+    (* every execution recorded in the log of the instance was given such an input, with respect to the
+       record of the tasks resolved up to the moment it was scheduled *)
+    Theorem executed_input x s0 ls Rv :
+      reach x s0 ls Rv ->
+      forall t w, In (p ++ [t], w) (own_events (ls_log V St ls)) ->
+      exists Rv' more, Rv = Rv' ++ more /\ input_spec Rv' t w.
+    Proof.
+      induction 1 as [cs0 cs1 ready Hi Hc Hend|ls Rv ls' Hr IH Hstep]; intros t w Hin.
+      - exfalso. cbn [init_state ls_log] in Hin. unfold own_events, log_steps_at, run_marker in Hin. simpl in Hin.
+        match type of Hin with context [list_eq_dec ?a ?b ?c] => destruct (list_eq_dec a b c) end; simpl in Hin; exact Hin.
+      - destruct (step_continue_unfold V St ops g Hdag exec sub sched p ls ls' Hstep)
+          as (results & sublog & s' & completed & running' & cs' & ready & Es & Ew & Ecn & Eend & Eso & ->).
+        destruct (submit_spec V St ops g exec sub p _ Hsub _ _ _ _ _ Es) as [_ Hsl].
+        cbn [ls_log] in Hin. rewrite !own_events_app, (own_events_foreign sublog Hsl), app_nil_r, own_events_next in Hin.
+        apply in_app_iff in Hin. destruct Hin as [Hin|Hin].
+        + destruct (IH t w Hin) as (Rv' & more & -> & Hsp).
+          exists Rv', (more ++ step_outputs ls). split; [now rewrite app_assoc|assumption].
+        + apply in_map_iff in Hin. destruct Hin as ([k v] & E & Hkv). simpl in E.
+          injection E as E1 E2. apply app_inv_head in E1. injection E1 as <-. subst v.
+          exists Rv, (step_outputs ls). split; [reflexivity|].
+          eapply scheduled_input; [exact Hr|]. apply nodup_in_alookup; [eapply ls_next_sorted; eassumption|assumption].
+    Qed.
+
+    (* the value assembled for END is the result of the run *)
+    Theorem done_result x s0 ls Rv v lg s' :
+      reach x s0 ls Rv -> step ls = Finish (Done v lg) s' ->
+      input_spec (Rv ++ step_outputs ls) kEND v.
+    Proof.
+      intros Hr Hstep. destruct (reach_LT x s0 ls Rv Hr) as (X & G & HL & HE & HG & HNR & HV & _ & _ & _).
+      destruct (step_done_unfold V St ops g Hdag exec sub sched p ls v lg s' Hstep)
+        as (results & sublog & completed & running' & cs' & ready & Es & Ew & Ecn & Eend & Eso & _).
+      destruct (step_completed_pre V St ops g exec sub sched p Hsub ls (akeys Rv) X G _ _ _ _ _ HL Es Ew) as (HndCo & Hpre).
+      pose proof HL as (HI & Ho & Hnd & _).
+      destruct (calc_next_EV V ops g Hdag Hnk _ (akeys Rv) Rv G _ cs' ready HI Ho Hnd HE HG HV HndCo Hpre Ecn) as (_ & Hin1).
+      rewrite Eso. now apply Hin1.
+    Qed.
+
+    (* the state after the last calc_next of a successful run satisfies the same invariant (END has a
+       predecessor, as in every graph that compiles), so every theorem above also holds of it *)
+    Lemma done_LT x s0 ls Rv v lg s' :
+      (exists q, gpred g kEND q) -> reach x s0 ls Rv -> step ls = Finish (Done v lg) s' ->
+      exists ls', LT ls' (Rv ++ step_outputs ls) /\ alookup kEND (ls_next V St ls') = Some v.
+    Proof.
+      intros Hend Hr Hstep.
+      destruct (step_done_unfold V St ops g Hdag exec sub sched p ls v lg s' Hstep)
+        as (results & sublog & completed & running' & cs' & ready & Es & Ew & Ecn & Eend & Eso & _).
+      eexists. split; [rewrite Eso; eapply LT_step; [exact (reach_LT x s0 ls Rv Hr)|exact Es|exact Ew|exact Ecn|now right]|].
+      exact Eend.
     Qed.
 
     (* the outcome of run_flat is produced by a reachable state (or the run ends before the loop starts) *)
